@@ -165,6 +165,8 @@ def direct_predicate(c, r):
     same = lambda a, b: len(a) == len(b) and all((x == y) or (x != x and y != y) for x, y in zip(a, b))
     if not same(r["out"], r["ref"]):
         return f"batch result {r['out']} != pointwise {r['ref']}"
+    if r.get("input_unchanged") is False:
+        return "the batch interface modified the caller's array of points"
     if "out2" in r and not same(r["out2"], r["ref2"]):
         return f"batch result on the re-used buffer {r['out2']} != pointwise {r['ref2']} (the buffer was refilled in place)"
     if c["kind"] == "model" and c["which"] in ("likelihood", "single") and r["delta"] != c["n"]:
